@@ -13,7 +13,7 @@ RULE = ("~x, x&y, x|y, x^y with y a fixed-point object of the same n_word (eithe
         "Generated: exhaustive - all code pairs for n_word<=6 x 4 signedness combinations (x as array of all codes against each scalar y, and scalar-scalar for n_word<=3); Hypothesis - boundary/random codes for "
         "n_word in {16,31,32,33,63,64,65,100,128}, Fxp / +mask / -mask / reflected operands, 1-d and 2-d arrays with an int mask for n_word<64. Non-trivial = a negative code or mixed signedness; distinct = distinct case keys.")
 ASSUMPTIONS = ['operands are created from raw codes', 'Fxp-array (x) Fxp-array and >=64-bit arrays (x) mask are outside the quantifier (they raise; recorded as an observation)']
-EXHAUSTIVE = True
+EXHAUSTIVE = False    # the whole quantifier is not enumerated; complete sub-domains are listed in EXHAUSTIVE_SUBDOMAINS
 EXHAUSTIVE_SUBDOMAINS = {'quick': ['all code pairs, n_word<=6, 4 signedness combinations, n_frac in {0, n_word//2, n_word} per operand'], 'thorough': ['same for n_word<=7 with every n_frac 0..n_word of x']}
 REQUIRED_CLASSES = {'negative': 1000, 'mixed-sign': 1000, 'wide>=64': 300, 'mask-negative': 200, 'reflected': 200, 'law': 500}
 OPS = ('and', 'or', 'xor')
